@@ -2,11 +2,18 @@
 from .common import pipeline_for, combined
 
 LEVEL = 'other'
-RULES = ('S-OWN', 'S-ROLE', 'M1', 'R02.d', 'R03.b', 'R03.d', 'R04.d', 'R01.b', 'R03.c', 'R14.t', 'R01.c', 'R10.s')
+RULES = ('S-OWN', 'S-ROLE', 'M1', 'R02.d', 'R03.b', 'R03.d', 'R04.d', 'R01.b', 'R03.c', 'R14.t', 'R01.c', 'R10.s', 'R14.s', 'R04.n', 'R02.r')
 
 
 def run(prog, rec, tier):
+    from . import static_rules as _sr
+    _sr.assert_conditions(prog, rec, 'R04.n', 'R04.n@kernel::assert-conditions-have-no-effects', ('kernel', 'main.cpp', 'valget'))
     combined(prog, rec, tier, RULES, driver=('sequence', 'layout', 'reader'), pipe=True, monitor=True, spawn=True, modes=('isolation', 'steps'),
                  explanation='Every read and write of a chunk buffer field, in the worker role and in the I/O role, happens while the '
                  'token value makes that role the exclusive owner of the same index (disjoint ownership sets derived from an inferred '
                  'rely/guarantee pair); token written only under its mutex; INV terminal; worker i uses only buffer i; monotone cursor.')
+    # the group a role works on is the one of the current operation: nothing with static storage in the pipeline units (a static
+    # local that remembers the first operation's group, say) carries a value from one operation into the next, other than the
+    # inventoried singleton / live counter
+    from . import static_rules
+    static_rules.scoped_statics(prog, rec, 'R14.s', 'R14.s@kernel/multi_aes::roles-share-only-the-group', ('kernel/multi_aes/multi',), 'the worker / I/O code')
